@@ -75,6 +75,13 @@ fn chk_seq<H: AsRef<[usize]> + SelectUnchecked>(ctx: &mut Ctx, name: &str, ef: &
             break;
         }
     }
+    for k in [1usize, n / 2, n] {
+        if k <= n {
+            if let Some(w) = vh::models::iter_protocol(|| ef.iter_from(k), &s[k..]) {
+                ctx.violation(&key("iter_from"), format!("from {k}: {w}"));
+            }
+        }
+    }
     let starts: Vec<usize> = if n <= 80 { (0..=n).collect() } else { vec![0, 1, 63, 64, 65, n / 2, n - 65, n - 64, n - 1, n] };
     for &k in &starts {
         for which in 0..2 {
@@ -111,6 +118,9 @@ fn chk_iter<H: AsRef<[usize]>>(ctx: &mut Ctx, name: &str, ef: &EliasFano<H, Low>
     if ef.len() != n {
         ctx.violation(&key("len"), format!("len() = {} expected {n}", ef.len()));
         return;
+    }
+    if let Some(w) = vh::models::iter_protocol(|| ef.iter(), s) {
+        ctx.violation(&key("iter"), w);
     }
     for which in 0..2 {
         let mut it = if which == 0 { ef.iter() } else { ef.into_iter() };
